@@ -24,7 +24,9 @@ Record ucase := UC {
                                       any) + String(); None = no parent or parent rejected (the URL
                                       was then normalised without a parent) *)
   c_outs : list obs;               (* NormalizeURL + String() on fresh objects *)
-  c_again : option obs             (* the first output normalised once more (no parent) *)
+  c_again : option obs;            (* the first output normalised once more (no parent) *)
+  c_nofrag : option (bytes * obs)  (* when the text has a '#' after a non-empty prefix: that prefix
+                                      and what it is normalised to (same parent) *)
 }.
 
 Definition obs_eqb (a c : obs) : bool :=
@@ -143,6 +145,27 @@ Definition mon_directory (c : ucase) : bool :=
   | _, _ => true
   end.
 
+(* 6: no fragment, from the input side (norm_fragment_irrelevant): the text and the text cut at
+   its first '#' get the same answer *)
+Definition mon_fragment (c : ucase) : bool :=
+  match frag_prefix (trim_quotes (c_text c)), c_outs c with
+  | Some a, OOk o :: _ =>
+    match c_nofrag c with
+    | Some (a', o') => bytes_eqb a a' && obs_eqb (OOk o) o'
+    | None => false
+    end
+  | _, _ => true
+  end.
+
+(* 7: a reference with an authority but no scheme takes the parent's scheme
+   (scheme_relative_takes_parent_scheme, RFC 3986 5.2.2) *)
+Definition mon_scheme_rel (c : ucase) : bool :=
+  match c_pcanon c, c_outs c with
+  | Some pc, OOk o :: _ =>
+    if is_scheme_rel_ref (trim_quotes (c_text c)) then bytes_eqb (scheme_text pc) (scheme_text o) else true
+  | _, _ => true
+  end.
+
 Definition diffs (l : list ucase) := bad_idx diff_case l.
 Definition mons (l : list ucase) :=
-  mon_idx [mon_same; mon_idem; mon_shape; mon_query; mon_authority; mon_directory] l.
+  mon_idx [mon_same; mon_idem; mon_shape; mon_query; mon_authority; mon_directory; mon_fragment; mon_scheme_rel] l.
